@@ -60,22 +60,23 @@ var (
 )
 
 type dmSock struct {
-	tcp      bool
-	listener bool
-	ep       tcpip.Endpoint
-	laddr    tcpip.Address // "" = wildcard
-	lport    uint16
-	raddr    tcpip.Address // "" = not connected
-	rport    uint16
-	closed   bool
-	peer     *TCPPeer // established TCP connection: the scripted peer's state
-	sent     int64
-	resAddr  tcpip.Address // address its port reservation was made for ("" = wildcard)
-	reserves bool          // holds a port reservation (UDP sockets, TCP listeners)
-	nic      int           // 0: any interface; k: bound or connected through NIC k only
-	loose    bool          // bound to the wildcard address, then connected: whether it still hears other local addresses is not asserted
-	protos   int           // network protocols its reservation covers: 1 IPv4, 3 IPv4+IPv6 (dual-stack IPv6 socket); 0 means 1
-	fake     *fakeEP       // registered directly with the stack's demultiplexer (no socket, no port reservation)
+	tcp        bool
+	listener   bool
+	ep         tcpip.Endpoint
+	laddr      tcpip.Address // "" = wildcard
+	lport      uint16
+	raddr      tcpip.Address // "" = not connected
+	rport      uint16
+	closed     bool
+	peer       *TCPPeer // established TCP connection: the scripted peer's state
+	sent       int64
+	resAddr    tcpip.Address // address its port reservation was made for ("" = wildcard)
+	reserves   bool          // holds a port reservation (UDP sockets, TCP listeners)
+	nic        int           // 0: any interface; k: bound or connected through NIC k only
+	loose      bool          // bound to the wildcard address, then connected: whether it still hears other local addresses is not asserted
+	activeWild bool          // a TCP connection opened actively from a socket bound to the wildcard address
+	protos     int           // network protocols its reservation covers: 1 IPv4, 3 IPv4+IPv6 (dual-stack IPv6 socket); 0 means 1
+	fake       *fakeEP       // registered directly with the stack's demultiplexer (no socket, no port reservation)
 }
 
 // fakeEP is a transport endpoint of the harness registered directly through
@@ -251,12 +252,17 @@ func (w *dmWorld) activeOpen(ai, pi, ri, mode int) {
 	}
 	ep, err := w.S.S.NewEndpoint(tcp.ProtocolNumber, netw, &waiter.Queue{})
 	must(err, "tcp endpoint")
+	kept := false
 	defer func() {
-		ep.Close()
+		if !kept {
+			ep.Close()
+		}
 		w.Settle()
 		w.Take()
 	}()
+	wild := false
 	bound := mode&1 != 0
+	keep := bound && !dual && mode&4 != 0 // the peer accepts: the connection stays, as one more socket of the scenario
 	var lport uint16
 	if bound {
 		lport = []uint16{dmPorts[0], dmPorts[1], dmPorts[2], dmHighPort}[pi%4]
@@ -267,6 +273,7 @@ func (w *dmWorld) activeOpen(ai, pi, ri, mode int) {
 		if w.addrOff && laddr == dmLocal[2] {
 			return
 		}
+		wild = laddr == ""
 		conflict := w.conflict(true, laddr, lport)
 		e := ep.Bind(tcpip.FullAddress{Addr: laddr, Port: lport}, nil)
 		w.bindResult(true, laddr, lport, conflict, e)
@@ -277,6 +284,9 @@ func (w *dmWorld) activeOpen(ai, pi, ri, mode int) {
 		w.nextOffset = dmHighPort - 16000 // the search for an ephemeral port starts exactly at the high port
 	}
 	ra, rp := dmRAddr[ri%3], uint16(9100+ri%3)
+	if keep {
+		rp = dmRPort[ri%3] // inside the universe the injected segments are drawn from
+	}
 	w.Take()
 	e := ep.Connect(tcpip.FullAddress{Addr: mapped(ra, dual), Port: rp})
 	w.Settle()
@@ -304,6 +314,29 @@ func (w *dmWorld) activeOpen(ai, pi, ri, mode int) {
 				}
 			} else {
 				w.Probes["ephemeral_port_checked"]++
+			}
+		}
+		if keep {
+			la := tcpip.Address(d.IP.Src)
+			dupe := false
+			for _, o := range w.socks {
+				if o.tcp && !o.listener && o.laddr == la && o.lport == sp && o.raddr == ra && o.rport == rp {
+					dupe = true // (a connection with this 4-tuple exists or is winding down)
+				}
+			}
+			if !dupe {
+				p := w.NewTCPPeer(false, rp, sp, uint32(sim.Mix(w.seed^uint64(len(w.socks))<<8)))
+				p.PAddr, p.SAddr = ra, la
+				p.StackISS, p.HaveISS, p.RcvNxt = d.TCP.Seq, true, d.TCP.Seq+1
+				p.Send(codec.FlagSYN|codec.FlagACK, p.ISS, p.RcvNxt, 65535, nil, nil)
+				p.SndNxt = p.ISS + 1
+				p.Mine(w.Take())
+				if _, e := ep.GetRemoteAddress(); e == nil {
+					kept = true
+					w.socks = append(w.socks, &dmSock{tcp: true, ep: ep, laddr: la, lport: sp, raddr: ra, rport: rp, peer: p, activeWild: wild})
+					w.Probes["tcp_connections_opened_actively"]++
+					return
+				}
 			}
 		}
 		// the peer refuses
@@ -606,7 +639,15 @@ func (w *dmWorld) inject(isTCP bool, nic, di, pi, ri int) {
 		}
 		if err != nil {
 			if s == win && (!isTCP || s.peer != nil) {
-				w.demuxFail("not-delivered", "packet #%d (tcp=%v) to % x:%d from % x:%d on NIC %d should reach socket %d (bound % x:%d, remote % x:%d) but that socket has nothing to read (%v)", w.npkt, isTCP, []byte(dst), dport, []byte(src), sport, nic+1, i, []byte(s.laddr), s.lport, []byte(s.raddr), s.rport, err)
+				why := ""
+				if s.activeWild {
+					for _, o := range w.socks {
+						if !o.closed && o.listener && o.laddr == dst && o.lport == dport {
+							why = " [the connection was opened actively from a socket bound to the wildcard address, and a listener bound to exactly this address and port is open]"
+						}
+					}
+				}
+				w.demuxFail("not-delivered", "packet #%d (tcp=%v) to % x:%d from % x:%d on NIC %d should reach socket %d (bound % x:%d, remote % x:%d) but that socket has nothing to read (%v)%s", w.npkt, isTCP, []byte(dst), dport, []byte(src), sport, nic+1, i, []byte(s.laddr), s.lport, []byte(s.raddr), s.rport, err, why)
 			}
 			continue
 		}
@@ -809,7 +850,7 @@ func (w *dmWorld) next() Step {
 		mode := 0
 		switch kind {
 		case 5:
-			mode = []int{0, 2, 2, 1, 1, 33}[r.Intn(6)] // unbound (search start free / at the high port), bound, bound dual-stack
+			mode = []int{0, 2, 2, 1, 5, 5, 33}[r.Intn(7)] // unbound (search start free / at the high port), bound, bound and accepted by the peer, bound dual-stack
 		case 2:
 			if r.Chance(0.25) {
 				mode = 64
